@@ -609,3 +609,30 @@ def assigned_names(node):
                 isinstance(getattr(n, 'ctx', None), (ast.Store, ast.Del)):
             out.append(unparse(n))
     return out
+
+
+def flag_condition(fnode, name, before=None):
+    """The condition a boolean flag stands for: ``if C: f = True else: f =
+    False`` (or reversed, or ``f = C``) bound before line ``before``.
+    Returns the expression (NNF-negated when the branches are reversed) or
+    None when the flag is not of that shape."""
+    from .nnf import negate
+    cands = []
+    for n in walk_no_defs(fnode):
+        if before is not None and getattr(n, 'lineno', 0) >= before:
+            continue
+        if isinstance(n, ast.If) and len(n.body) == 1 and len(n.orelse) == 1:
+            a, b = n.body[0], n.orelse[0]
+            if all(isinstance(x, ast.Assign) and len(x.targets) == 1 and
+                   isinstance(x.targets[0], ast.Name) and
+                   x.targets[0].id == name and isinstance(
+                       x.value, ast.Constant) and isinstance(
+                       x.value.value, bool) for x in (a, b)) and \
+                    a.value.value != b.value.value:
+                cands.append(n.test if a.value.value else negate(n.test))
+        if isinstance(n, ast.Assign) and len(n.targets) == 1 and isinstance(
+                n.targets[0], ast.Name) and n.targets[0].id == name and \
+                isinstance(n.value, (ast.Compare, ast.BoolOp)):
+            cands.append(n.value)
+    return cands[-1] if len(cands) == 1 else None
+
